@@ -523,36 +523,40 @@ func (c *container) SetResourceUpdates(r *nri.LinuxResources) bool {
 func mergeNRIResources(u *nri.LinuxResources, orig *nri.LinuxResources) *nri.LinuxResources {
 	log.Debug("merging resource update %+v with fallback/orig %+v", u, orig)
 
+	if u == nil {
+		u = &nri.LinuxResources{}
+	}
+
 	if u.Cpu == nil {
 		u.Cpu = &nri.LinuxCPU{}
 	}
-	if orig.Cpu != nil {
+	if origCpu := orig.GetCpu(); origCpu != nil {
 		if u.Cpu.GetShares().GetValue() == 0 {
-			u.Cpu.Shares = nri.UInt64(orig.Cpu.Shares)
+			u.Cpu.Shares = nri.UInt64(origCpu.Shares)
 		}
 		if u.Cpu.GetQuota().GetValue() == 0 {
-			u.Cpu.Quota = nri.Int64(orig.Cpu.Quota)
+			u.Cpu.Quota = nri.Int64(origCpu.Quota)
 		}
 		if u.Cpu.GetPeriod().GetValue() == 0 {
-			u.Cpu.Period = nri.UInt64(orig.Cpu.Period)
+			u.Cpu.Period = nri.UInt64(origCpu.Period)
 		}
 		if u.Cpu.Cpus == "" {
-			u.Cpu.Cpus = orig.Cpu.Cpus
+			u.Cpu.Cpus = origCpu.Cpus
 		}
 		if u.Cpu.Mems == "" {
-			u.Cpu.Mems = orig.Cpu.Mems
+			u.Cpu.Mems = origCpu.Mems
 		}
 	}
 
 	if u.Memory == nil {
 		u.Memory = &nri.LinuxMemory{}
 	}
-	if orig.Memory != nil {
+	if origMem := orig.GetMemory(); origMem != nil {
 		if u.Memory.GetLimit().GetValue() == 0 {
-			u.Memory.Limit = nri.Int64(orig.Memory.Limit)
+			u.Memory.Limit = nri.Int64(origMem.Limit)
 		}
 		if u.Memory.GetSwap().GetValue() == 0 {
-			u.Memory.Swap = nri.Int64(orig.Memory.Swap)
+			u.Memory.Swap = nri.Int64(origMem.Swap)
 		}
 	}
 
